@@ -250,6 +250,17 @@ def trees_of_job(job, seed):
         if job.get("sample") and total > job["sample"]:
             idx = sorted(rng.sample(idx, job["sample"]))
         return total, [(i, allt[i]) for i in idx]
+    if job.get("mode") == "enum_int":
+        # the intermediate forms of the rewriting itself: trees with integer leaves (0, 1, 2, -1) next to x and parameters; at
+        # least one integer leaf (the others are covered by mode enum)
+        ints = ["0", "1", "2", "-1"]
+        eb = [list(basis[0]) + ints, basis[1], basis[2]]
+        allt = [lab for s, lab in oracle.enumerate_trees(n, eb) if any(l in ints for l in lab)]
+        total = len(allt)
+        idx = list(range(total))
+        if job.get("sample") and total > job["sample"]:
+            idx = sorted(rng.sample(idx, job["sample"]))
+        return total, [(i, allt[i]) for i in idx]
     shapes = [s for s in oracle.valid_shapes(n)
               if all(len(basis[a]) > 0 for a in set(s))]
     seen, out = set(), []
